@@ -1,9 +1,15 @@
 ----------------------------- MODULE MCErrFlow -----------------------------
 EXTENDS ErrFlow
-WrappedAsCoded == [parse |-> [disk |-> TRUE, memory |-> TRUE],
+\* the wrapper table of the pinned commit had memory-parse, deps, preprocess and nodeapi unwrapped
+WrappedAtPinnedCommit == [parse |-> [disk |-> TRUE, memory |-> FALSE],
                    deps |-> [disk |-> FALSE, memory |-> FALSE],
                    preprocess |-> [disk |-> FALSE, memory |-> FALSE],
                    nodeapi |-> [disk |-> FALSE, memory |-> FALSE],
+                   handler |-> [disk |-> TRUE, memory |-> TRUE]]
+WrappedAsCoded == [parse |-> [disk |-> TRUE, memory |-> TRUE],
+                   deps |-> [disk |-> TRUE, memory |-> TRUE],          \* Modules.load (since the repair)
+                   preprocess |-> [disk |-> TRUE, memory |-> TRUE],    \* Modules.load (since the repair)
+                   nodeapi |-> [disk |-> TRUE, memory |-> TRUE],       \* Procedure.__exec_impl (since the repair)
                    handler |-> [disk |-> TRUE, memory |-> TRUE]]
 WrappedAll == [s \in {"parse", "deps", "preprocess", "nodeapi", "handler"} |-> [m \in {"disk", "memory"} |-> TRUE]]
 =============================================================================
